@@ -575,6 +575,9 @@ impl<'a> Parser<'a> {
                 return Ok(lhs);
             }
             if is_not {
+                // `lhs not OP rhs` builds two tree levels, Unary(not, Binary(..)), and is rendered
+                // as `not (..)`: both levels count towards the nesting budget
+                self.enter()?;
                 self.next()?;
             }
             let op: &str = match self.tokenizer.cur_token {
